@@ -94,6 +94,32 @@ func (ex *Exec) Discharge(o *Obligation, dir string, timeoutS int, second bool) 
 	}
 	base := filepath.Join(dir, sanitizeFile(o.ID))
 	var verdicts []string
+	if o.MustBeSat {
+		// vacuity guard: refutation of the assumptions is what matters; one
+		// solver with a short budget
+		if timeoutS > 8 {
+			timeoutS = 8
+		}
+		cfg := solverList(timeoutS)[0]
+		script := ts.Script(asserts, ScriptOpts{Cvc5: cfg.Cvc5})
+		file := base + "." + cfg.Name + ".smt2"
+		_ = os.WriteFile(file, []byte(script), 0o644)
+		o.Query = file
+		r := runSolver(cfg, file, timeoutS)
+		o.Seconds = r.secs
+		o.Solver = cfg.Name
+		switch r.verdict {
+		case "unsat":
+			o.Status = "failed"
+			o.Output = "assumptions are contradictory (vacuous)"
+		case "sat":
+			o.Status = "discharged"
+		default:
+			o.Status = "discharged"
+			o.Solver = "not-refuted"
+		}
+		return
+	}
 	try := func(cfg SolverCfg, getModel bool) solveOut {
 		script := ts.Script(asserts, ScriptOpts{Cvc5: cfg.Cvc5, GetModel: getModel})
 		file := base + "." + cfg.Name + ".smt2"
